@@ -218,6 +218,25 @@ def int_float_twins(rng: random.Random) -> tuple[list, list[dict]] | None:
     return pool, ops
 
 
+def long_lived(rng: random.Random, reps: int) -> tuple[list, list[dict]]:
+    """one derivative object the caller keeps and asks again and again (a plot, an optimiser's inner loop): whatever it
+    starts doing differently after its hundredth or thousandth call shows as a change of the answer at a point it has
+    answered before"""
+    g = gen.Gen(rng, names=("x",), floats_only=True, kinds=[k for k in gen.ALL if k != "Power"])
+    e = None
+    for _ in range(30):
+        e = g.expr(rng.randint(2, 4))
+        if e._variable_names and wire.size(e) >= 5:
+            break
+    pool = [e]
+    x = sorted(e._variable_names)[0] if e._variable_names else "x"
+    pts = [wire.point(g.point([x])) for _ in range(3)]
+    kind = rng.choice(["P", "D", "P", "F"])
+    ops = [{"op": "pobj_new", "i": 0, "j": 0, "p": pts[0], "x": x, "kind": kind}]
+    ops += [{"op": "pobj_at", "i": 0, "j": 0, "p": pts[k % 3], "x": x, "style": 2, "same": k % 2 == 0} for k in range(reps)]
+    return pool, ops
+
+
 def sharing_prefixes(rng: random.Random, pool: list) -> list[list[dict]]:
     """a derivative object of one member is asked at the caller's own Point object, a *different* member sharing nodes
     with it is used at another point through some entry point, and the object is asked again at the identical Point"""
